@@ -1028,6 +1028,8 @@ def fit_eligible(spec):
     f = features(spec)
     if f & {"arith", "np_value"}:
         return False
+    if any(p["fam"] not in ("Uniform", "LogUniform") for p in spec["pool"]):
+        return False          # drawing inside narrow limits of a wide (Log)Gaussian may never end: the sampler's business
     for _, n in walk_spec(spec["model"]):
         if n["t"] in ("str", "none", "bool", "int"):
             return False
@@ -1497,15 +1499,18 @@ def gen_cases(ctx):
 def gen_history(rng, quick_search):
     """one search object, 3-5 real fits; before each fit the user changes / clears / sets / keeps search.unique_tag,
     sometimes the model too; the paths object may arrive with a tag of its own"""
-    for _ in range(50):
+    for _ in range(50 if quick_search else 0):
         gen = Gen(rng, clean=True, max_depth=1)
         S = gen.fit()
         if fit_eligible(dict(S, search={"cls": "LBFGS", "settings": {}})):
             break
     else:
-        gen = Gen(rng, clean=True)
-        gen.pool = []
-        S = {"model": {"t": "model", "cls": "A2", "attrs": [["a", gen.prior()], ["b", gen.prior()]], "extras": []}, "pool": gen.pool}
+        # real samplers get benign priors (drawing inside narrow limits of a wide Gaussian never ends: not C07's subject)
+        benign = lambda: {"fam": "Uniform", "lo": hx(rng.randint(-8, 0) / 4.0), "hi": hx(rng.randint(1, 12) / 4.0)}
+        S = {"model": {"t": "coll", "form": "dict", "items": [
+                ["g", {"t": "model", "cls": "A2", "attrs": [["a", {"t": "prior", "ref": 0}], ["b", {"t": "prior", "ref": 1}]], "extras": []}],
+                ["h", {"t": "model", "cls": "A1", "attrs": [["u", {"t": "prior", "ref": rng.choice([0, 2])}]], "extras": []}]]},
+             "pool": [benign(), benign(), benign()]}
     tags = ["d0", "d1", "dataset_2", "t.x"]
     init = {"ctor_tag": rng.choice([None, "d0", "ctor"])}
     if rng.random() < 0.35:
@@ -1524,8 +1529,12 @@ def gen_history(rng, quick_search):
         if rng.random() < 0.3:                    # another model as well
             g2 = Gen(rng, clean=True)
             g2.pool = []
-            model = {"t": "model", "cls": rng.choice(["A2", "C2"]), "attrs": [["a", g2.prior()], ["b", g2.const() if rng.random() < 0.5 else g2.prior()]], "extras": []}
-            pool = g2.pool
+            if quick_search:
+                model = {"t": "model", "cls": rng.choice(["A2", "C2"]), "attrs": [["a", g2.prior()], ["b", g2.const() if rng.random() < 0.5 else g2.prior()]], "extras": []}
+                pool = g2.pool
+            else:
+                model = {"t": "model", "cls": rng.choice(["A2", "C2"]), "attrs": [["a", {"t": "prior", "ref": 0}], ["b", g2.const()]], "extras": []}
+                pool = [{"fam": "Uniform", "lo": hx(rng.randint(-8, 0) / 4.0), "hi": hx(rng.randint(1, 12) / 4.0)}]
         steps.append({"model": model, "pool": pool, "tag": cur})
     cls = "MockSearch" if quick_search else rng.choice(["Drawer", "LBFGS"])
     search = {"cls": cls, "settings": {"total_draws": rng.choice([2, 3])} if cls == "Drawer" else {}}
